@@ -1,4 +1,26 @@
 //! Correspondence harness: runs the real okane code (path dependencies on /repo) on case files
 //! and prints canonical one-line records for the Lean driver and the differ.
 pub mod sx;
+pub mod tree;
+pub mod proc;
+pub mod corecmd;
+pub mod c01;
+pub mod c02;
+pub mod c03;
+pub mod c04;
+pub mod c05;
+pub mod c06;
+pub mod c07;
+pub mod c08;
+pub mod c09;
+pub mod c10;
+pub mod c11;
+pub mod c12;
+pub mod c13;
+pub mod c14;
+pub mod c15;
+pub mod c16;
+pub mod c17;
+pub mod c18;
+pub mod c19;
 pub mod c20;
